@@ -132,6 +132,9 @@ type Func struct {
 	Chain []*Func
 	// transform
 	T *jast.Transform
+	// Bound holds the given arguments of a partial application (nil entries
+	// at placeholders); nil when they are evaluated at call time
+	Bound []Value
 	// builtin
 	B *Builtin
 }
@@ -169,6 +172,11 @@ type Evaluator struct {
 	// FittingCallsRejected counts calls of typed lambdas that the port's
 	// positional signature algorithm (which fitSignature mirrors) rejects
 	// although the arguments fit the signature declaratively
+	// PartialArgsAtCall makes partial applications evaluate their given
+	// arguments at every call (the port's behaviour) instead of once where
+	// they are written; PartialsMade counts partial applications created
+	PartialArgsAtCall bool
+	PartialsMade      int
 	FittingCallsRejected int
 	// ... the same for signatures with an option in a place where the port
 	// does not honour it ('-' not first, '?' before a mandatory parameter,
